@@ -65,6 +65,9 @@ class Mux(recorded.Module):
         cfgs.append(dict(name="MCT_table", module="MuxTable", cfg=tab % (5 if th else 4, "TRUE"), workers=4))
         cfgs.append(dict(name="MCT_unguarded", module="MuxTable", cfg=tab % (4, "FALSE"), workers=2,
                          expect_violation="OpenIsRegistered"))
+        # Open() after the close as the code did it before D15 was repaired: a handle stays open for ever
+        cfgs.append(dict(name="MCT_lateopen", module="MuxTable", cfg=(tab % (4, "TRUE")).replace("TSpecM", "TSpecAsWas"),
+                         workers=2, expect_violation="NothingOpenAfterClose"))
         return cfgs
 
     def prepare(self, prop, tier, sd, sc):
